@@ -99,7 +99,7 @@ def toIns (unit : Nat) : SX → Option Ins
   | .list [.atom "ut", d, s] => do some (.unionTag (← toNat d) (← toOpd s))
   | .list [.atom "uv", d, s, n] => do some (.unionVal (← toNat d) (← toOpd s) (← toNat n))
   | .list [.atom "nop"] => some .nop
-  | .list [.atom "uns", _, .atom what] => some (.uns what)
+  | .list [.atom "uns", d, .atom what] => do some (.uns (← toNat d) what)
   | _ => none
 
 def toFn : SX → Option Fn
